@@ -159,11 +159,11 @@ fn run_case<G: AffineRepr>(bp: &BulletproofGens<G>, curve: &str, c: &Case) -> Ca
     let P = P.into_affine();
     let dense = c.vec_kind == 0;
     let ctxj = |what: &str| json!({"case": c, "what": what});
-    // ---- create
-    let proof = {
+    // ---- create (monitored: the round challenges it derived are taken from its Merlin log)
+    let (proof, create_log) = mon::record(|| {
         let mut t = Transcript::new(b"ipp-monitor");
         InnerProductProof::<G>::create(&mut t, &Q, &gf, &hf, Gs[..n].to_vec(), Hs[..n].to_vec(), a.clone(), b.clone())
-    };
+    });
     let m = match of_real(&proof) {
         Some(m) => m,
         None => {
@@ -177,7 +177,55 @@ fn run_case<G: AffineRepr>(bp: &BulletproofGens<G>, curve: &str, c: &Case) -> Ca
         return o;
     }
     o.count(&format!("rounds-ok[k={}]", c.k), 1);
-    let degenerate = m.L.iter().chain(m.R.iter()).any(|p| p.is_zero());
+    // the argument is deterministic given the challenges: re-derive every round's cross terms and
+    // the final scalars with the textbook folding and compare with what `create` emitted
+    let (cchs, _) = challenges_from_log::<G>(&create_log);
+    let reference = mon::quiet(|| {
+        let mut av = a.clone();
+        let mut bv = b.clone();
+        let mut gp: Vec<G::Group> = (0..n).map(|i| smul(&Gs[i], gf[i])).collect();
+        let mut hp: Vec<G::Group> = (0..n).map(|i| smul(&Hs[i], hf[i])).collect();
+        let mut ls = vec![];
+        let mut rs = vec![];
+        let mut len = n;
+        for round in 0..c.k as usize {
+            let u = match cchs.get(round) {
+                Some(x) => x.1,
+                None => return None,
+            };
+            let ui = u.inverse()?;
+            len /= 2;
+            let c_l: F<G> = (0..len).map(|i| av[i] * bv[len + i]).sum();
+            let c_r: F<G> = (0..len).map(|i| av[len + i] * bv[i]).sum();
+            let mut lp = smul(&Q, c_l);
+            let mut rp = smul(&Q, c_r);
+            for i in 0..len {
+                lp += gp[len + i] * av[i] + hp[i] * bv[len + i];
+                rp += gp[i] * av[len + i] + hp[len + i] * bv[i];
+            }
+            ls.push(lp.into_affine());
+            rs.push(rp.into_affine());
+            for i in 0..len {
+                av[i] = av[i] * u + av[len + i] * ui;
+                bv[i] = bv[i] * ui + bv[len + i] * u;
+                gp[i] = gp[i] * ui + gp[len + i] * u;
+                hp[i] = hp[i] * u + hp[len + i] * ui;
+            }
+        }
+        Some((ls, rs, av[0], bv[0]))
+    });
+    let degenerate = match &reference {
+        Some((ls, rs, fa, fb)) => {
+            if *ls != m.L || *rs != m.R || *fa != m.a || *fb != m.b {
+                let which = (0..m.L.len()).find(|j| ls[*j] != m.L[*j] || rs[*j] != m.R[*j]);
+                o.violate("create-deviates", format!("InnerProductProof::create emitted a proof that differs from the textbook argument under the challenges it derived (first differing round: {:?}; final scalars equal: {})", which, *fa == m.a && *fb == m.b), ctxj("create"));
+            } else {
+                o.count("create == textbook argument under its own challenges (bit for bit)", 1);
+            }
+            ls.iter().chain(rs.iter()).any(|p| p.is_zero())
+        }
+        None => m.L.iter().chain(m.R.iter()).any(|p| p.is_zero()),
+    };
     if degenerate {
         o.count("degenerate(identity round point) proofs observed", 1);
     }
